@@ -27,3 +27,31 @@ package storage
 //@   safety off
 //@   ensures [C18:released-by-the-holder] (lock.fs != nil && old(lock.fs.slock) == lock) ==> lock.fs.slock == nil
 //@   ensures [C18:stale-token-releases-nothing] (lock.fs != nil && old(lock.fs.slock) != lock) ==> lock.fs.slock == old(lock.fs.slock)
+
+// C18 (read-only): a storage opened read-only repairs nothing when asked for the current manifest: no CURRENT file is
+// rewritten and no leftover of an interrupted update is removed.
+//@ count os.Remove
+//@ count (*fileStorage).setMeta
+//@ func (*fileStorage).GetMeta
+//@   props C18
+//@   safety off
+//@   ensures [C18:read-only-storage-repairs-nothing] old(fs.readOnly) ==> (calls("os.Remove") == old(calls("os.Remove")) && calls("(*fileStorage).setMeta") == old(calls("(*fileStorage).setMeta")))
+// ... and refuses every mutation without touching the directory.
+//@ count os.OpenFile
+//@ count rename
+//@ func (*fileStorage).SetMeta
+//@   props C18
+//@   safety off
+//@   ensures [C18:read-only-storage-refuses-mutations] old(fs.readOnly) ==> (result != nil && calls("(*fileStorage).setMeta") == old(calls("(*fileStorage).setMeta")))
+//@ func (*fileStorage).Create
+//@   props C18
+//@   safety off
+//@   ensures [C18:read-only-storage-refuses-mutations] old(fs.readOnly) ==> (ret1 != nil && calls("os.OpenFile") == old(calls("os.OpenFile")))
+//@ func (*fileStorage).Remove
+//@   props C18
+//@   safety off
+//@   ensures [C18:read-only-storage-refuses-mutations] old(fs.readOnly) ==> (result != nil && calls("os.Remove") == old(calls("os.Remove")))
+//@ func (*fileStorage).Rename
+//@   props C18
+//@   safety off
+//@   ensures [C18:read-only-storage-refuses-mutations] (old(fs.readOnly) && oldfd != newfd) ==> (result != nil && calls("rename") == old(calls("rename")))
